@@ -210,6 +210,11 @@ func scanWireInBubble(c scanWireCase) (out Outcome) {
 			cancel()
 		}
 	}
+	if c.End.RenewMS > 0 && c.End.IdleAfterEnd {
+		synctest.Wait()
+		time.Sleep(3 * time.Duration(c.End.RenewMS) * time.Millisecond)
+		synctest.Wait()
+	}
 	eofs := 0
 	for i := 0; i < maxCalls && eofs < 2; i++ {
 		t0 := time.Now()
@@ -305,6 +310,10 @@ func scanWireGen(t *rapid.T, endings []string) scanWireCase {
 	c.End.CloseTwice = rapid.Bool().Draw(t, "twice")
 	if c.End.Kind == "cancel" && rapid.IntRange(0, 2).Draw(t, "blocked") == 0 {
 		c.SilentAfter = rapid.IntRange(1, 4).Draw(t, "silentafter")
+	} else if rapid.IntRange(0, 4).Draw(t, "renew") == 0 {
+		c.End.RenewMS = rapid.SampledFrom([]int{5, 50, 1000}).Draw(t, "renewms")
+		c.End.SleepMS = rapid.SampledFrom([]int{0, 1, 7, 120, 3000}).Draw(t, "sleepms")
+		c.End.IdleAfterEnd = rapid.Bool().Draw(t, "idle")
 	}
 	return c
 }
